@@ -221,6 +221,7 @@ def _reset(ctx, N):
             A = ((arr("X1", "N1", "M1"), arr("y1", "N1", "P1")), {})
             B = ((arr("X", "N", "M"), arr("y", "N", "P")), {})
             cases.append((f"{pkg}.{cname}: (X1,y1) then (X,y)", f"skmatter.{pkg}_selection.{cname}", ctor, A, B, [("S", "<=", S)]))
+            cases.append((f"{pkg}.{cname}[relative threshold]: (X1,y1) then (X,y)", f"skmatter.{pkg}_selection.{cname}", dict(ctor, score_threshold=scalar("thr"), score_threshold_type="relative"), A, B, [("S", "<=", S)]))
             if cname in ("FPS", "CUR"):
                 Bn = ((arr("X", "N", "M"),), {})
                 cases.append((f"{pkg}.{cname}: (X1,y1) then (X) without y", f"skmatter.{pkg}_selection.{cname}", ctor, A, Bn, [("S", "<=", S)]))
